@@ -74,6 +74,9 @@ func c27Cases(thorough bool) []c27Case {
 	g := &c27Gen{}
 
 	maxl := 2 // list lengths 0..maxl
+	if thorough {
+		maxl = 3
+	}
 
 	// ---- keys, address, node
 	for i := 0; i < 2; i++ {
@@ -552,8 +555,6 @@ func c27Cases(thorough bool) []c27Case {
 
 	c27HeaderCases(g)
 	c27MessageCases(g, maxl)
-
-	_ = thorough
 
 	return g.cases
 }
@@ -1199,6 +1200,7 @@ func TestVerifC27(t *testing.T) {
 	r.Set("hints_covered", cov)
 	r.Set("hints_not_covered", notcov)
 	r.Set("cases_total", len(cases))
+	r.Set("list_lengths", vlib.Pick(r, "0..2", "0..3"))
 	r.Set("cases_by_family", fams)
 
 	seen := map[string]bool{}
